@@ -3,6 +3,7 @@ import json
 
 from .. import types as T
 from ..spec import KINDS_ENUM, handlers
+from .common import draw_args
 
 
 def strip_root(root):
@@ -14,6 +15,7 @@ def strip_root(root):
 
 def check_prog(ctx, r, prog):
     pn = prog["name"]
+    rng = ctx.rng("c16", pn)
     ty_schema = {}
 
     def schema_of(ti):
@@ -42,6 +44,18 @@ def check_prog(ctx, r, prog):
         for h in qs:
             ctx.ev()
             wn = T.wire_name(h["name"])
+            # the name a client really sends: the key this query's variant serialises under
+            texts = draw_args(rng, prog, h)
+            bo = r.call({"prog": pn, "op": "build:" + h["hid"], "args": texts})
+            try:
+                sent = next(iter(json.loads(bo["res"]["ok"]["literal"]).keys()))
+            except Exception:
+                sent = None
+            if sent is not None and sent not in table:
+                ctx.violate("key-not-sent-name", f"{pn}: query {h['hid']} is sent as `{sent}` but the table of part {part['id']} has no such key (keys {sorted(table)})",
+                            dict(detail, handler=h["hid"], sent_as=sent))
+            elif sent is not None:
+                ctx.count("table_keys_equal_to_serialised_name")
             if wn not in table:
                 continue
             decl = h.get("resp_decl_ti", h["resp_ti"])
@@ -123,4 +137,10 @@ def run(ctx):
     gen = ctx.family("generic")
     gen.each_bin(per_bin)
     ctx.cov["generic_programs"] = len(gen.progs)
+    # response types that are user types named like framework items (Empty, Response, Binary, ...)
+    sh = ctx.family("shadow")
+    sh.each_bin(per_bin)
+    ctx.cov["shadow_programs"] = len(sh.progs)
+    from ..families_extra import SHADOW_NAMES
+    ctx.cov["shadow_names"] = SHADOW_NAMES
     ctx.cov["programs"] = len(fam.progs)
